@@ -221,3 +221,84 @@ func ZZ_C09_StartRevisionConflict() {
 	zzSettle()
 	e.zzCheckInvC("C09.conflict.settled", true, err == nil)
 }
+
+// Two registrations overlapping while the signalled leader is dead.  The liveness probe
+// of the leader is a network round trip (a scheduling point): whatever the interleaving,
+// every replica asked to start holds the highest revision count among the registered,
+// reachable replicas, and a reachable replica never loses its registration.
+func ZZ_C09_ConcurrentRegister() {
+	rf := zzParam("RF", 3)
+	e := zzNewEnv(rf)
+	c := e.c
+	hosts := zzHosts[:4] // h1: signalled leader, now dead; h2: registered; h3, h4: registering now
+	rev := make([]int64, 4)
+	for i := range rev {
+		rev[i] = zzNondetInt64("rev." + hosts[i])
+		zzAssume(rev[i] >= 0)
+	}
+	zzAssume(rev[0] >= rev[1]) // h1 was elected over h2
+	for i := 0; i < 2; i++ {
+		c.RegisteredReplicas[hosts[i]] = types.RegReplica{Address: hosts[i], UUID: "uuid-" + hosts[i], RevCount: rev[i], RepType: "Backend", RepState: "closed"}
+	}
+	c.MaxRevReplica = hosts[0]
+	c.StartSignalled = true
+	e.f.dead[hosts[0]] = true
+	e.f.noFail = true
+	done := make(chan int, 2)
+	firstProbe := true
+	e.f.onProbe = func() {
+		if !firstProbe {
+			return
+		}
+		firstProbe = false
+		// the other registration runs as far as it can while this probe is in flight
+		zzYield()
+		if !zzSymbolic() {
+			for i := 0; i < 600 && len(done) == 0; i++ {
+				zzYield() // natively: wait until it finished, or evidently cannot (lock held)
+			}
+		}
+	}
+	registered := map[string]bool{hosts[1]: true} // reachable replicas whose registration completed
+	idx := func(h string) int {
+		for i, x := range hosts {
+			if x == h {
+				return i
+			}
+		}
+		return -1
+	}
+	e.f.onSignal = func(target, action string) {
+		if action != "start" {
+			return
+		}
+		ti := idx(target)
+		zzAssert(ti > 0, "C09.concurrent.start-signal-to-dead-or-unknown-replica")
+		if ti <= 0 {
+			return
+		}
+		zzReach("C09.concurrent.signalled")
+		for h := range registered {
+			zzAssert(rev[idx(h)] <= rev[ti], "C09.concurrent.elected-replica-not-highest-revision")
+		}
+	}
+	go func() {
+		c.RegisterReplica(types.RegReplica{Address: hosts[3], UUID: "uuid-" + hosts[3], RevCount: rev[3], RepType: "Backend", RepState: "closed"})
+		registered[hosts[3]] = true
+		done <- 3
+	}()
+	c.RegisterReplica(types.RegReplica{Address: hosts[2], UUID: "uuid-" + hosts[2], RevCount: rev[2], RepType: "Backend", RepState: "closed"})
+	registered[hosts[2]] = true
+	zzSettleMs(8000) // natively the liveness probe retries three times, one second apart
+	zzAssert(len(done) == 1, "C09.concurrent.registration-did-not-finish")
+	zzAssert(zzLockDepth(&c.RWMutex) == 0, "C09.concurrent.lock-left-held")
+	for h := range registered {
+		_, ok := c.RegisteredReplicas[h]
+		zzAssert(ok, "C09.concurrent.reachable-replica-lost-its-registration")
+	}
+	// (an election is sticky once the leader was signalled: a later registrant with a
+	// higher count does not unseat a reachable leader, so nothing is asserted about the
+	// standing leader's rank at the end)
+	zzAssert(c.MaxRevReplica != hosts[0], "C09.concurrent.dead-replica-still-leader")
+	zzReach("C09.concurrent.done")
+}
